@@ -1,4 +1,4 @@
-import Upd.Server
+import Upd.Router
 open Upd
 
 def kv (toks : List String) (k : String) : String :=
@@ -38,6 +38,10 @@ def mkQ' (t : List String) : Q :=
   { mount := kv t "mount", fromR := kv t "from", digest := kv t "digest", algo := kv t "algo",
     cr := kv t "cr", state := kv t "state", body := expand (kv t "body") }
 
+/-- percent-decoding of the two characters the generators encode -/
+def unescape (p : String) : String :=
+  (((p.replace "%2e" ".").replace "%2E" ".").replace "%2f" "/").replace "%2F" "/"
+
 def out (p : State × Resp) : State × String := (p.1, p.2.line)
 
 def step (s : State) (line : String) : State × String :=
@@ -57,6 +61,8 @@ def step (s : State) (line : String) : State × String :=
   | ["MDEL", r, ref] => out (Upd.step s (.mDel r ref))
   | "TAGS" :: r :: rest => out (Upd.step s (.tags r (kv rest "n") (kv rest "last")))
   | "REFS" :: r :: arg :: rest => out (Upd.step s (.refs r arg (kv rest "at") (kv rest "cache") (kv rest "page")))
+  | ["RAW", m, path] => let (s', o) := Upd.stepRaw s m (unescape path); (s', s!"{o.status} code={o.code}")
+  | ["RAW", m] => let (s', o) := Upd.stepRaw s m ""; (s', s!"{o.status} code={o.code}")
   | "NEW" :: conf => ({ defs := s.defs, resps := s.resps, conf := mkConf conf }, "new")
   | _ => (s, "bad-op")
 
